@@ -12,7 +12,7 @@
    about SHA-256 or JSON. *)
 From Coq Require Import List NArith Bool Permutation.
 Import ListNotations.
-From Oras Require Import Model.GraphMem Proofs.GraphMem.
+From Oras Require Import Model.GraphMem Model.GraphStore Proofs.GraphMem Proofs.GraphStore.
 
 (* The invariants written in the comments of graph.Memory hold after every history of
    Index / Remove / IndexAll / fresh-graph operations, with content appearing in and
@@ -146,6 +146,54 @@ Theorem C07_reload_equiv_without_roots_refuted :
     ~ Permutation (predecessors g' n) (predecessors g n).
 Proof. exact reload_without_root_refuted. Qed.
 Print Assumptions C07_reload_equiv_without_roots_refuted.
+
+(* ---- OCI store level (Model/GraphStore.v: blobs on disk, the root list of
+   index.json, graph.Memory) ----
+   After every history of Push / Tag / Delete (a Delete with AutoGC is a sequence of
+   such deletes) / GC (whatever referrers the subject walk and Go's map order keep) /
+   reopen, Predecessors(n) is exactly the set of stored nodes whose successors contain
+   n -- for the repaired gcIndex.  [isman] marks the five manifest media types; only
+   they have successors. *)
+Theorem C07_store_history_exact :
+  forall (content : node -> list node) (isman : node -> bool),
+    (forall p, content p <> [] -> isman p = true) ->
+    forall fuel ops n,
+      let s := fst (orun true content isman fuel empty_store ops) in
+      NoDup (predecessors (o_graph s) n) /\
+      forall p, In p (predecessors (o_graph s) n) <-> In p (o_blobs s) /\ In n (content p).
+Proof. exact store_history_exact. Qed.
+Print Assumptions C07_store_history_exact.
+
+(* closing the layout and opening it again (directory, fs.FS, tar: the same loadIndex)
+   changes neither the stored set nor any Predecessors answer *)
+Theorem C07_store_reopen_same :
+  forall (content : node -> list node) (isman : node -> bool),
+    (forall p, content p <> [] -> isman p = true) ->
+    forall fuel ops s',
+      let s := fst (orun true content isman fuel empty_store ops) in
+      ostep true content isman fuel s PReopen = (s', true) ->
+      o_blobs s' = o_blobs s /\
+      forall n, Permutation (predecessors (o_graph s') n) (predecessors (o_graph s) n).
+Proof. exact store_reopen_same. Qed.
+Print Assumptions C07_store_reopen_same.
+
+(* The same statement is false for gcIndex as it was before the repair
+   ([orun false]): push 0, 2 = manifest{0}, 3 = index{2}; tag 3; GC; delete 3; reopen:
+   2 is stored and references 0, Predecessors(0) omits it.  Replayed on the real store:
+   corpus/C07/gc-drops-nested-manifest.json. *)
+Theorem C07_store_history_exact_prefix_refuted :
+  exists content isman fuel ops n p,
+    (forall q, content q <> [] -> isman q = true) /\
+    let r := orun false content isman fuel empty_store ops in
+    snd r = true /\ In p (o_blobs (fst r)) /\ In n (content p) /\
+    ~ In p (predecessors (o_graph (fst r)) n).
+Proof. exact store_history_exact_prefix_refuted. Qed.
+Print Assumptions C07_store_history_exact_prefix_refuted.
+
+Example C07_store_history_fixed_example :
+  let r := orun true (ctab pf_ct) pf_isman 50 empty_store pf_ops in
+  snd r = true /\ o_blobs (fst r) = [2; 0]%N /\ predecessors (o_graph (fst r)) 0%N = [2%N].
+Proof. exact store_history_fixed_example. Qed.
 
 (* IndexAll / loadIndex / gcIndex terminate: for every finite universe closed under
    [content] and containing the roots (any shape, cycles included) some fuel completes
